@@ -35,19 +35,39 @@ def _world(ctx, wrapper_case, cached_case, kind='OperatorDict'):
         interp.ctx.event('cache-test', item)
         return W['cached']
 
+    def cached_entry():
+        if 'cached_entry' not in W:
+            ko = sym('cached_keys_out', truth=SBool(z3.Bool('cached_keys_out_nonempty')))
+            W['cached_entry'] = (ko, sym('cached_func'))
+        return W['cached_entry']
+
     def od_getitem(interp, me, idx):
-        return W['entry_for'](idx) if 'entry_for' in W else Rec('item', me, idx)
+        # reading the dictionary at a key: the stored (keys_out, func) pair.  (Stores made on this path are answered by Rec
+        # itself before this hook runs; a read of a key that is not cached is a KeyError in the real code.)
+        c = W['cached']
+        hit = interp.truth(c) if not isinstance(c, bool) else c
+        if not hit:
+            raise KeyError(idx)
+        return cached_entry()
+
+    def ns_lookup(interp, me, idx):
+        # cache invariant (C09, established by every __getitem__ that stores an entry): numspace[func.__name__] is the cached
+        # function, wrapped by algebra.wrapper when one is set
+        if 'cached_entry' in W and isinstance(idx, Rec) and same(idx, Rec('attr', W['cached_entry'][1], '__name__')):
+            f = W['cached_entry'][1]
+            return Rec('call', wrapper, (f,), {}) if wrapper is not None else f
+        return Rec('item', me, idx)
+    numspace.on_getitem = ns_lookup
+    numspace.attrs['get'] = sym('numspace.get', callable_result=lambda interp, me, args, kw: ns_lookup(interp, numspace, args[0]))
     def od_get(interp, me, args, kw):
         # dict.get(key, default): the stored entry when the key is cached, else the default
         interp.ctx.event('cache-test', args[0])
         c = W['cached']
         hit = interp.truth(c) if not isinstance(c, bool) else c
         if hit:
-            ko = sym('cached_keys_out', truth=SBool(z3.Bool('cached_keys_out_nonempty')))
-            W['cached_entry'] = (ko, sym('cached_func'))
-            return W['cached_entry']
+            return cached_entry()
         return args[1] if len(args) > 1 else kw.get('default')
-    opdict = sym('operator_dict', on_contains=od_contains)
+    opdict = sym('operator_dict', on_contains=od_contains, on_getitem=od_getitem)
     opdict.attrs['get'] = sym('operator_dict.get', callable_result=od_get)
     me = sym('self', attrs={'algebra': alg, 'operator_dict': opdict, 'codegen': sym('codegen'),
                             'codegen_symbolcls': sym('codegen_symbolcls'), 'name': sym('name')},
